@@ -15,7 +15,7 @@ from mc.drivers import stores as S
 from mc.lattice import Emb, chunked
 
 BOUNDS = {
-    "quick": {"max_len": 4, "lattice": "0..5", "labels": 2, "pulsetimes_units": [0, 1, 2], "units_us": [1_000_000]},
+    "quick": {"max_len": 4, "lattice": "0..5", "labels": 2, "pulsetimes_units": [0, 1], "units_us": [1_000_000]},
     "thorough": {"max_len": 5, "lattice": "0..6", "labels": 2, "pulsetimes_units": [0, 0.5, 1, 2], "units_us": [1_000_000, 1_000]},
 }
 RULE = (
